@@ -1429,3 +1429,23 @@ def _os_environ_get(interp, args, kwargs, node, frame):
     if interp.run.branch(b):
         return "1"
     return default
+
+
+@method("set", "issubset")
+def _set_issubset(interp, recv, args, kwargs, node, frame):
+    return recv.issubset(set(args[0]))
+
+
+@method("set", "issuperset")
+def _set_issuperset(interp, recv, args, kwargs, node, frame):
+    return recv.issuperset(set(args[0]))
+
+
+@method("set", "union")
+def _set_union(interp, recv, args, kwargs, node, frame):
+    return recv.union(*[set(a) for a in args])
+
+
+@method("set", "difference")
+def _set_difference(interp, recv, args, kwargs, node, frame):
+    return recv.difference(*[set(a) for a in args])
